@@ -766,7 +766,7 @@ def qcow2_snapshots(ctx, rng, nsets):
              and disk.view_features(disk.norm_view(s["view"]))["discontinuous"]]
     for k in range(nsets):
         picks = rng.sample(inter, 3)
-        cb, K = 9, 32
+        cb, K = rng.choice([(9, 32), (9, 32), (13, 512), (16, 4096)])      # clusters below and above the size of the stream buffer
         snap_imgs = [p["img"] for p in picks[1:]]
         if k % 2 and short:
             sp = rng.choice(short)
@@ -790,7 +790,7 @@ def qcow2_snapshots(ctx, rng, nsets):
                 while n > 0:
                     j, off = divmod(x, cs)
                     t = min(n, cs - off)
-                    out.append(patterns.cpat(tok["f"] * K + j, off, t))
+                    out.append(patterns.cpat(tok["f"] * K + j + info["csalt"], off, t))
                     x += t
                     n -= t
                 return b"".join(out)
@@ -815,8 +815,9 @@ def qcow2_snapshots(ctx, rng, nsets):
             for step in range(24):
                 which = rng.randrange(3)
                 b = builts[which]
-                o = rng.choice([0, 0, rng.randrange(0, b.size)])
-                n = rng.choice([1, 512, 4096, 9000, b.size])
+                # the same few guest clusters are visited through every view in turn (first / second / last real cluster of an abstract one)
+                o = rng.choice([0, rng.randrange(0, b.size), min(b.size - 1, (rng.randrange(8) * K + rng.choice([0, 0, 1, K - 1])) * cs + rng.choice([0, 0, 512]))])
+                n = rng.choice([1, 512, 4096, 9000, min(b.size, 1 << 20), cs, 2 * cs])
                 exp = disk.expected(views[which], o, n, b)
                 objs[which].seek(o)
                 got = objs[which].read(n)
